@@ -210,6 +210,31 @@ def services(ctx, rig, rng, case0):
             ctx.violation("store-not-received", "store_configuration() returned but the slave saw no store request", case0)
     except Exception as exc:  # noqa: BLE001
         ctx.violation(f"store-raised:{type(exc).__name__}", f"store_configuration() raised {exc!r}", case0)
+    # identify remote slave: six requests carrying vendor id, product code and the two ranges, each under its own specifier
+    ident = slave.identity
+    for inside in (True, False, True):
+        rev = (rng.randint(0, ident[2]), rng.randint(ident[2], 0xFFFFFFFF))
+        ser = (rng.randint(0, ident[3]), rng.randint(ident[3], 0xFFFFFFFF))
+        if not inside:
+            if ident[2] < 0xFFFFFFFF:
+                rev = (ident[2] + 1, 0xFFFFFFFF)          # a range that excludes the device
+            else:
+                ser = (0, ident[3] - 1)
+        ctx.count("service_calls")
+        ctx.case(("identify-remote-slave", inside), nontrivial=True)
+        answers = slave.identify_answers
+        try:
+            lss.send_identify_remote_slave(ident[0], ident[1], rev[0], rev[1], ser[0], ser[1])
+        except Exception as exc:  # noqa: BLE001
+            ctx.violation(f"identify-raised:{type(exc).__name__}", f"send_identify_remote_slave raised {exc!r}", case0)
+            continue
+        want = {0x46: ident[0], 0x47: ident[1], 0x48: rev[0], 0x49: rev[1], 0x4A: ser[0], 0x4B: ser[1]}
+        got = getattr(slave, "identify_last", None)
+        if got != want:
+            ctx.violation("identify-remote-slave-fields", "send_identify_remote_slave(vendor, product, rev low, rev high, serial low, serial high) "
+                          f"reached the slave as { {hex(k): hex(v) for k, v in (got or {}).items()} }, expected { {hex(k): hex(v) for k, v in want.items()} }", case0)
+        elif (slave.identify_answers > answers) != inside:
+            ctx.violation("identify-remote-slave-answer", f"device inside the ranges: {inside}, device answered: {slave.identify_answers > answers}", case0)
     delay = rng.choice([0, 1, 1000, 65535])
     lss.activate_bit_timing(delay)
     ctx.count("service_calls")
